@@ -98,6 +98,24 @@ def k_dec(ctx, cases):
 		inrange = 0 <= k <= 32 and 0 <= idx < 4 ** k
 		ctx.case(dict(index=idx, k=k), nontrivial=inrange and k >= 2)
 		if inrange:
+			# the public name gambit.kmers.index_to_kmer, with the index as Python int and as the NumPy scalars a
+			# signature array hands out (uint64, and the signature's own dtype when the index fits it)
+			import numpy as np
+			import gambit.kmers as gk
+			forms = [('int', idx), ('numpy.uint64', np.uint64(idx))]
+			dt = gk.index_dtype(k) if k >= 1 else None
+			if dt is not None:
+				forms.append((f'element of a {dt} array', np.array([idx], dtype=dt)[0]))
+			for name, val in forms:
+				try:
+					w = gk.index_to_kmer(val, k)
+				except Exception as e:  # noqa
+					w = type(e).__name__
+				if w != r:
+					ctx.violation('dec', [idx, k], f'gambit.kmers.index_to_kmer({idx} as {name}, {k}) = {w!r} but the extension gives {r!r} for the Python int',
+					              impl=w, ext=r)
+					break
+		if inrange:
 			# mutually inverse on the domain of the property
 			if not isinstance(r, bytes) or len(r) != k or any(c not in NUC for c in r):
 				ctx.violation('dec', [idx, k], f'index_to_kmer({idx},{k}) = {r!r} is not an upper-case {k}-mer', impl=r)
